@@ -24,6 +24,9 @@ MUTANTS = [
     M('C03', 'wflip builds the new op with the old return address', OPS, "        return WordFlip(word_address, flip_value, return_address, self.code_position)", "        return WordFlip(word_address, flip_value, self.return_address, self.code_position)", 'C03.SUBST-COMPLETE'),
     M('C03', 'operator node shared when only the LAST argument is unchanged', EXPR, "            if evaluated_arg is not arg:\n                unchanged = False", "            unchanged = evaluated_arg is arg", 'C03.SUBST-COMPLETE'),
     M('C03', 'EQ flip;jump guard operands swapped', OPS, "        if flip is self.flip and jump is self.jump:", "        if jump is self.jump and flip is self.flip:", None),
+    M('C03', 'relative names limited to two leading dots (seed C03_2)', PARSER, "dot_id_re = fr'(({id_re})|\\.*)?(\\.({id_re}))+'", "dot_id_re = fr'(({id_re})|\\.)?(\\.({id_re}))+'", 'C03.REL-NAMES'),
+    M('C03', 'resolver drops one namespace level too many', PARSER, "        return '.'.join(curr_namespace[: len(curr_namespace) - (num_of_dots - 1)] + [without_dots])", "        return '.'.join(curr_namespace[: len(curr_namespace) - num_of_dots] + [without_dots])", 'C03.REL-NAMES'),
+    M('C03', 'EQ resolver slice bound spelled differently', PARSER, "        return '.'.join(curr_namespace[: len(curr_namespace) - (num_of_dots - 1)] + [without_dots])", "        return '.'.join(curr_namespace[: len(curr_namespace) + 1 - num_of_dots] + [without_dots])", None),
     M('C03', 'EQ rename/eval chained', PRE, "            op = op.rename_iterator(hygienic_iterator)\n            op = op.eval_new(params_dict)\n",
       "            op = op.rename_iterator(hygienic_iterator)\n            op = op.eval_new(params_dict)  # substitute params after the rename\n", None),
 ]
